@@ -301,7 +301,7 @@ Definition transform (input : bytes) : option bytes := option_map print_canonica
 
 Example transform_ex1 :
   transform (bs "{ ""b"" : [1.0, true, null, ""€\/""], ""a"":-0 }")
-  = Some (bs "{""a"":0,""b"":[1,true,null,""") ++ [xe2; x82; xac] ++ bs "/""]}").
+  = Some (bs "{""a"":0,""b"":[1,true,null,""" ++ [xe2; x82; xac] ++ bs "/""]}").
 Proof. vm_compute. reflexivity. Qed.
 Example transform_dup : transform (bs "{""a"":1,""a"":2}") = None.
 Proof. vm_compute. reflexivity. Qed.
